@@ -46,8 +46,8 @@ CHECKS = {
          'Guards moved into unresolvable helpers give exit 2, never a violation.',
          'DESIGN.md section 5 / C13'),
  'C15': ('decision table of the requested-state normalisation (reaching definitions), loop-exit analysis of the polling loops against final states and timeout, return-value provenance',
-         'Static analysis of Task.wait, Pilot.wait, TaskManager.wait_tasks, PilotManager.wait_pilots: the state set reaching the polling loop is FINAL / [state] / state for the three argument shapes; no infinite path through the loop once the awaited entities are final or the timeout expired; every return yields a current .state read. Does not decide "shortly after" (poll period).',
-         'Not decided: timing.',
+         'Static analysis of Task.wait, Pilot.wait, TaskManager.wait_tasks, PilotManager.wait_pilots: the state set reaching the polling loop is FINAL / [state] / state for the three argument shapes; no infinite path through the loop once the awaited entities are final or the timeout expired; every return yields a current .state read. "Shortly after" is decided only as a bound on the poll period: its least upper bound over all rounds is at most 1 s (ten times the period of the tree; a period that grows without a cap is unbounded).',
+         'Not decided: real timing (scheduling delays, duration of callbacks); the 1 s reading of "shortly after" is an assumption of the check stated in DESIGN 8.3.',
          'DESIGN.md section 5 / C15'),
  'C17': ('exhaustive table check: every shipped resource config x schema (merge mirrored from get_resource_config) against factory tables extracted from the AST; def-use agreement of job and agent sinks in _prepare_pilot',
          'Static, exhaustive over all shipped resource_*.json entries and schemas (63 resources, 120 pairs today): after the same merge get_resource_config performs and a mirror of the typed verify(), resource manager, launch methods, order, scheduler, spawner and agent config resolve through the factory tables (extracted from the impl dict literals and local imports) to classes that exist; component kinds and bridges of the agent/tmgr/pmgr/session configs resolve; in _prepare_pilot job and agent receive the same core/gpu/node figures, the divisor depends on SMT and blocked lists, the node count is ceil/max-combined. Minimality of the node count for all numeric inputs is not decided.',
@@ -110,6 +110,30 @@ EXTRA = {
  'C19': ' Also: the mapping that was normalised reaches the base constructor with the highest precedence; alias guards pass for every set value of the deprecated attribute; every payload entry the decoder reads comes from a caller-supplied parameter; RO keywords get the part of their own name/position; each kind is converted independently of the other.',
  'C20': ' Also: routing table over the request modes (three-valued evaluation); all-or-nothing allocation; register before hand-on; kind tested free = kind marked = kind recorded; the raptor backlog accumulates.',
 }
+# clauses added by the rules of rounds 5 to 7 (DESIGN 8.3)
+EXTRA2 = {
+ 'C01': ' Rounds 5-7: a store fed by a loop variable lies inside that loop; a position in Node.cores/gpus that is occupied comes from a look-up that compared the entry index with the requested index.',
+ 'C02': ' Rounds 5-7: application-supplied slots pass the BUSY marking before the hand-on; with a zero core count no path of NodeList.find_slots reaches find_slot; nobody removes from the colocate history.',
+ 'C03': ' Rounds 5-7: the index a pick records addresses the element that was tested; every node binding that _change_slot_states writes through has passed the index comparison with the slot.',
+ 'C04': ' Rounds 5-7: a tag option closes its node skip at the default; with partial set _find_resources leaves before the search only for a reason that rules out one slot; is_canceled decided also for fall-off and result-local forms.',
+ 'C05': ' Rounds 5-7: sub-queue names of producer and consumer agree; things collected in a loop are read again on every path; a hand-on inside a loop hands on a different thing each iteration; every normal path from the work_cb handler of the work loop returns to the loop head.',
+ 'C06': ' Rounds 5-7: the state subscriber hands every notification of a bulk on (evaluated on concrete messages); no test on the path to the progress function depends on earlier iterations of the batch.',
+ 'C07': ' Rounds 5-7: every watcher iteration polls; one bucket per task and origin; kills sit under an OSError handler; the start announcement is handed on through exactly one bucket.',
+ 'C08': ' Rounds 5-7: the hand-over test of _control_cb holds for every scheduler and executor class (including any()/all() forms); a request loop is not left for one element; the cancel branch visits every queue of the raptor backlog.',
+ 'C09': ' Rounds 5-7: constants compared with case-folded strings are fixed points; no partial aggregate appended inside the filling loop; a configured fallback cannot make the derivation dead; within one launcher configuration no path of a placed task ends without a node name while another ends with one.',
+ 'C10': ' Rounds 5-7: per-rank switch on when any entry is a dict; the rank variable exported by every launcher is the one the script switches on; exported variables are defined before the lines that reference them; stdout/stderr names followed through tables and helpers.',
+ 'C11': ' Rounds 5-7: description-only keys are read through the description; per-task isolation without re-raise; each context of Pilot.stage_in/out is fed by the getter of the side it completes; the path argument reaches the URL without a call that drops a trailing slash.',
+ 'C12': ' Rounds 5-7: every added pilot document is stored; index selection guarded by non-emptiness of that list; command constants of publisher and handler agree; the reschedule flag accumulates and the debit path reaches the reschedule; published pilot list equals the stored one; a sandbox cache that depends on the pilot uid is keyed by it.',
+ 'C13': ' Rounds 5-7: every registered callback is invoked; the state write is decided per (final target, current) pair over the folded state tables; one registry entry per callable.',
+ 'C14': ' Rounds 5-7: one record object per pilot; a whole pilot record is stored/deleted only where the table holds none for that key; a cancel cause is recorded only on paths that took the this-pilot-is-named branch.',
+ 'C15': ' Rounds 5-7: the two clock reads of the timeout test do not cancel; a returned state read from a memo is as fresh as the memo fill; the least upper bound of the poll period over all rounds is at most 1 s (stated reading of "shortly after").',
+ 'C16': ' Rounds 5-7: compared value = stamped value; proxy table per channel; a message that must travel takes fwd/origin from defaults or constants, never from the message it answers; update flag decided per state.',
+ 'C17': ' Rounds 5-7: schema key is the requested one; the package\'s own verification hooks and the raise/assert statements of get_resource_config are evaluated on every shipped resource x schema pair; caches of configurations are keyed by every parameter with deep copies in and out.',
+ 'C18': ' Rounds 5-7: guards of the marking, uniformity refusal, registry key agreement, threads per core reach the count, cursor arithmetic, a refusal is not swallowed; run sizes of an unsorted groupby are accumulated; the accessible-node append is reached with probe outcome 0 only; the raw host string is used unexpanded only under guards excluding "," and "[".',
+ 'C19': ' Rounds 5-7: alias guards over the value domain, payload provenance, RO field agreement, kinds converted independently, fast paths decided by the whole list, retry handler breadth; a memo of encoded payloads is keyed by every parameter; an as_dict override converts nested typed dictionaries.',
+ 'C20': ' Rounds 5-7: returncode read after wait; the wake-up depends only on the table; membership test and access on the same table; route tables of list references followed by reference; setdefault/update stores into the backlog do not drop requests.',
+}
+
 SHARED = ' Shared rule Rnn.S on the anchor files: sibling fragments that differ by one systematic renaming apply it at every aligned position (forgot-to-rename).'
 
 PENDING = 'check not built yet in this round (static rules designed in DESIGN.md section 5); not claimed until the checker exists'
@@ -129,7 +153,7 @@ def main():
                 'evidence_file': 'evidence/%s.json' % pid,
                 'replay_cmd_template': './check %s --replay {path}' % pid,
                 'engine': 'rpsa',
-                'level_claimed': {'category': 'other', 'text': text + EXTRA.get(pid, '') + SHARED, 'design_ref': ref},
+                'level_claimed': {'category': 'other', 'text': text + EXTRA.get(pid, '') + EXTRA2.get(pid, '') + SHARED, 'design_ref': ref},
                 'level_note': note,
                 'technique': 'static analysis: ' + tech + '; finite-domain evaluation of guards, reaching definitions, sibling-consistency (anti-unification of parallel fragments); verdict by consensus over the canonical tree and behaviour-preserving normalised views',
             })
